@@ -91,6 +91,46 @@ def run(ctx):
             report("Repair differs from the proved model (%s): impl=%s model=%s" % (c["desc"], x[:100], y[:100]), replay, nf=True)
         if px["changed"] and px["res"] != "ok" and len(ctx.samples) < 4:
             ctx.sample({"damage": c["desc"], "repair": x.split(" trace=")[0], "written": sorted(px["changed"])})
+    # Repair that fails part-way (a later write fails): what was already rewritten must still be listed and exact
+    fcases = []
+    for c, x in zip(cases, ri):
+        px = L.parse_result(x)
+        if c["mode"] != "mem" or len(px["repaired"]) < 2 or len(fcases) >= (12 if ctx.tier != "thorough" else 60):
+            continue
+        widx = [k for k, ev in enumerate(px["trace"]) if ev.startswith("W:")]
+        for j in range(1, len(widx)):
+            for kind in ("n", "t1"):
+                fl = c["rline"].rsplit(" ", 1)[0] + " 1 %d:%s" % (widx[j], kind)
+                assert c["rline"].endswith(" 0")
+                fcases.append((c, fl, j, kind))
+    fi, fm = P.run_both(ctx, vh, model, [f[1] for f in fcases])
+    for (c, fl, j, kind), x, y in zip(fcases, fi, fm):
+        ps = c["set"]
+        px = L.parse_result(x)
+        ctx.count("partial|" + L.hx(L.md5(fl.encode())), True)
+        dist["partial_failure_cases"] = dist.get("partial_failure_cases", 0) + 1
+        protected = {ps.paths[n]: ps.files[n] for n in ps.files}
+        replay = {"lines": [fl], "mode": "mem", "desc": c["desc"] + " + write %d fails (%s)" % (j, kind), "impl": [x[:1500]], "model": [y[:1500]], "class": {"damage": "partial-failure"}}
+        bad = None
+        torn = None
+        if kind.startswith("t"):
+            ev = px["trace"][[k for k, e in enumerate(px["trace"]) if e.startswith("W:")][j]] if len([e for e in px["trace"] if e.startswith("W:")]) > j else ""
+            torn = L.unhx(ev.split(":")[1]).decode("latin-1") if ev else None
+        for p, d in px["changed"].items():
+            if p == torn:
+                continue            # the torn write itself: reported by the error (C18 judges it)
+            if p not in protected:
+                bad = "a file that is not protected was modified: %s" % p
+            elif d != protected[p]:
+                bad = "a protected file was written with bytes that are not its original: %s" % p
+            elif p not in px["repaired"]:
+                bad = "a file rewritten before the failure is not listed in the result: %s" % p
+        if px["res"] == "ok":
+            bad = "Repair returned success although a write failed"
+        if bad:
+            report("%s (%s, write %d fails with %s, result %s)" % (bad, c["desc"], j, kind, px["res"]), replay)
+        elif L.canon(x, "mem") != L.canon(y, "mem"):
+            report("Repair with a failing write differs from the model (%s): impl=%s model=%s" % (c["desc"], x[:100], y[:100]), replay, nf=True)
     # stale recovery files: a second set with the same names, lengths and first 16 KiB (hence the same file ids
     # and recovery-set id) but different content beyond; its volumes beside the first set's index are accepted
     # by every packet-level check, reconstruction yields wrong bytes, and only the whole-file hash can stop the write
